@@ -26,7 +26,7 @@ const propID = "C16"
 
 const H = world.H
 
-var kinds = []string{"small", "spooled", "retry-fail", "redirects", "five-hosts", "discarded"}
+var kinds = []string{"small", "spooled", "cut-spooled", "retry-fail", "redirects", "five-hosts", "discarded"}
 
 type scen struct {
 	Seq     []string `json:"sequence"`
@@ -67,6 +67,8 @@ func dyn(u string, attempt int) (world.Resp, bool) {
 			return world.Resp{Status: 200, Header: html, Body: `<!DOCTYPE html><html><body><img src="` + base + `/a.png"></body></html>`}, true
 		case "spooled":
 			return world.Resp{Status: 200, Header: html, Body: `<!DOCTYPE html><html><body><img src="` + base + `/big.txt"></body></html>`}, true
+		case "cut-spooled":
+			return world.Resp{Status: 200, Header: html, Body: `<!DOCTYPE html><html><body><img src="` + base + `/cut.txt"><img src="` + base + `/cutsmall.txt"></body></html>`}, true
 		case "retry-fail":
 			return world.Resp{Status: 200, Header: html, Body: `<!DOCTYPE html><html><body><img src="` + base + `/boom.png"><img src="` + base + `/a.png"></body></html>`}, true
 		case "redirects":
@@ -86,6 +88,10 @@ func dyn(u string, attempt int) (world.Resp, bool) {
 		return png, true
 	case rest == "big.txt":
 		return world.Resp{Status: 200, Header: map[string]string{"Content-Type": "text/plain"}, Body: bigBody}, true
+	case rest == "cut.txt": // the connection breaks after 2.1 MiB: the body is already spooled to a temp file
+		return world.Resp{Status: 200, Header: map[string]string{"Content-Type": "text/plain"}, Body: bigBody, CutAt: 2200000}, true
+	case rest == "cutsmall.txt": // breaks after 3 KiB: past the sniff window, still in memory
+		return world.Resp{Status: 200, Header: map[string]string{"Content-Type": "text/plain"}, Body: bigBody, CutAt: 3072}, true
 	case rest == "boom.png":
 		return world.Resp{Status: 500, Header: map[string]string{"Content-Type": "text/plain"}, Body: "oops"}, true
 	case rest == "limited.png":
@@ -327,7 +333,7 @@ func main() {
 		"states": total.States, "transitions": total.Transitions, "traces_validated_against_impl": total.Executions,
 		"samples": []any{total.Sample}, "exhaustive": total.Exhaustive, "sequences": len(ss), "alphabet": kinds,
 		"quiescent_states_reached": finals,
-		"explanation": "every sequence of seed kinds up to the length bound (quick 2, thorough 3) over {small page+asset, 2.2 MiB spooled text body, retry-then-fail, redirect chain, five hosts, discarded 429} run to quiescence plus one limiter clean-up period on the real pipeline (rate limiter on, virtual clock); the footprint vector (live threads, open bodies, temp files, reactor entries/tokens, limiter buckets, unreleased item bodies) must equal the idle footprint measured before the first seed; limiter table within its bound at every step",
+		"explanation": "every sequence of seed kinds up to the length bound (quick 2, thorough 3) over {small page+asset, 2.2 MiB spooled text body, spooled body whose connection breaks mid-way, retry-then-fail, redirect chain, five hosts, discarded 429} run to quiescence plus one limiter clean-up period on the real pipeline (rate limiter on, virtual clock); the footprint vector (live threads, open bodies, temp files, reactor entries/tokens, limiter buckets, unreleased item bodies) must equal the idle footprint measured before the first seed; limiter table within its bound at every step",
 	}, []string{
 		"goroutines = threads owned by the scheduler (every go statement of the instrumented packages); file descriptors are represented by open response bodies and temp files - OS-level fd/goroutine counts of the real process are outside this part",
 		"fixpoint: since every sequence returns to the one idle state, the reachable quiescent states are closed under the alphabet at depth 1",
